@@ -131,6 +131,11 @@ func stepSeq(q *coalesce.Queue, m *qmodel, o sop, st *seqStats) (mm *finding) {
 			st.ctxTold++
 			return nil
 		}
+		if o.Kind == "nextc" && !pending && m.closed && err != nil && !coalesce.IsClosedQueue(err) {
+			// cancelled context on an empty closed queue: either report is allowed
+			st.ctxTold++
+			return nil
+		}
 		kind, wItem, wDups := m.next()
 		switch kind {
 		case "item":
